@@ -231,6 +231,27 @@ func ascii(s string) string {
 }
 
 var errTable = [][2]string{
+	{"no transactions", "no-txs"},
+	{"too many transactions", "too-many"},
+	{"invalid transaction: index", "invalid-tx"},
+	{"invalid MsgNewEthBlock message", "first-not-ethblock"},
+	{"the first tx should be MsgNewEthBlock", "first-not-ethblock"},
+	{"MsgNewEthBlock should be first tx", "ethblock-not-first"},
+	{"invalid MsgNewEthBlock proposer", "proposer"},
+	{"fee recipient mismatched", "fee-recipient"},
+	{"invalid MsgNewEthBlock timestamp", "timestamp"},
+	{"incorrect parent block", "parent"},
+	{"invalid goat requests", "requests-decode"},
+	{"gas revenue request length is not 1", "gas-length"},
+	{"refer to incorrect beacon root", "beacon-root"},
+	{"tx length is less than expected", "tx-length"},
+	{"bridge tx", "bridge-tx-mismatch"},
+	{"locking tx", "locking-tx-mismatch"},
+	{"tx mismatched", "tx-mismatch"},
+	{"goat txs length mismatched", "goat-tx-count"},
+	{"invalid goat tx root", "tx-root"},
+	{"non-VALID status", "engine"},
+	{"engine down", "engine"},
 	{"pubKey does not match signer address", "ante:signature"},
 	{"bitmap: buffer length", "bitmap-length"},
 	{"nil pointer dereference", "nil-vote"},
